@@ -90,6 +90,14 @@ func (e *Exec) callFunc(s *State, f *Frame, in ssa.Value, fn *ssa.Function, args
 	if e.intrinsic(s, f, full, fn, args, pos, key, setRes, resType) {
 		return
 	}
+	// the lemma under proof may ask for a callee to be inlined (optionally with its loops unrolled)
+	if e.con != nil && s.pure == 0 && fn.Blocks != nil {
+		if n, ok := e.con.InlineCalls[fn.Name()]; ok && len(s.frames) < 8 {
+			e.pushFrame(s, fn, args, free, in)
+			s.top().unroll = n
+			return
+		}
+	}
 	// contract?
 	if con := e.w.contractFor(fn); con != nil && !(fn == e.fn && false) {
 		if !con.Inline && !(s.pure > 0 && con.Pure && fn.Blocks != nil && e.w.loopsOf(fn).n == 0) {
@@ -191,10 +199,29 @@ func (e *Exec) havocReach(s *State, v Value, vis map[*Obj]bool) {
 	switch x := v.(type) {
 	case *PtrV:
 		if x.Ref != nil {
+			if len(x.Ref.Path) > 0 && x.Ref.Obj != e.ghostObj {
+				// pointer to a part of an object (a field): only that part is reachable through it
+				allFields := true
+				for _, pe := range x.Ref.Path {
+					if pe.Index != nil {
+						allFields = false
+					}
+				}
+				if t := e.typeAt(x.Ref); t != nil && allFields {
+					old := e.load(s, x.Ref)
+					e.havocReach(s, old, vis)
+					e.store(s, x.Ref, e.freshValS(s, t, "hv."+x.Ref.Obj.Name))
+					return
+				}
+			}
 			e.havocObj(s, x.Ref.Obj, vis)
 		}
 	case *SliceV:
 		if x.Base != nil {
+			if len(x.Base.Path) > 0 {
+				e.havocReach(s, &PtrV{Ref: x.Base, Nil: False}, vis)
+				return
+			}
 			e.havocObj(s, x.Base.Obj, vis)
 		}
 	case *StructV:
@@ -695,10 +722,38 @@ func (e *Exec) intrinsic(s *State, f *Frame, full string, fn *ssa.Function, args
 		sm := c.Add(c.Add(x, y), ci)
 		setRes(TupleV{c.Extract(sm, 63, 0), c.ZExt(c.Extract(sm, 64, 64), 64)})
 		return true
-	case "hash/crc32.Checksum", "hash/crc32.Update":
-		// uninterpreted: result depends on the byte string; modelled as fresh (no determinism) unless contract given
-		return false
+	case "hash/crc32.Update":
+		// crc32.Update(seed, table, p): an uninterpreted but deterministic function of (seed, bytes of p)
+		setRes(e.rangeFn(s, "crc32", []*Term{args[0].(*Term)}, args[2], SBV(32)))
+		return true
+	case "hash/crc32.Checksum":
+		setRes(e.rangeFn(s, "crc32", []*Term{BVConst(0, 32)}, args[0], SBV(32)))
+		return true
 	case "runtime.KeepAlive":
+		return true
+	case "(*sync.Mutex).Lock", "(*sync.Mutex).Unlock", "(*sync.RWMutex).Lock", "(*sync.RWMutex).Unlock",
+		"(*sync.RWMutex).RLock", "(*sync.RWMutex).RUnlock":
+		e.note("mutex operations are no-ops in the sequential model (mutual exclusion is the paper argument of DESIGN.md §1)")
+		if s.pure == 0 {
+			s.trace = append(s.trace, e.posStr(pos)+": "+full)
+		}
+		return true
+	case "runtime/trace.StartRegion":
+		setRes(&PtrV{Nil: False})
+		return true
+	case "(*runtime/trace.Region).End":
+		return true
+	case "time.Now":
+		setRes(e.freshValS(s, resType, "now"))
+		return true
+	case "fmt.Errorf", "errors.New":
+		// library fact: these constructors never return nil and do not modify their arguments
+		e.note("library fact: fmt.Errorf / errors.New return a non-nil error and modify nothing")
+		setRes(&IfaceV{Nil: False, ID: c.Fresh("errid", SBV(64))})
+		return true
+	case "fmt.Sprintf", "fmt.Sprint", "fmt.Sprintln":
+		e.note("library fact: fmt.Sprint* modify nothing (result string unconstrained)")
+		setRes(e.freshValS(s, types.Typ[types.String], "sprintf"))
 		return true
 	}
 	return false
